@@ -35,8 +35,12 @@ SetElems == {KeyOK1, KeyOK2, KeyNoKty, KeyDup, EmptyMap, Nat2I(1), EmptyArr}
 
 VARIABLES w, ks, mode
 vars == <<w, ks, mode>>
-Init == w = <<>> /\ ks = <<>> /\ mode \in {"key", "set"}
-Push(e) == mode = "key" /\ Len(w) < MaxLen /\ w' = Append(w, e) /\ UNCHANGED <<ks, mode>>
+(* a key map starts empty, or already holding a valid key type (so that every rule is also exercised on otherwise acceptable keys) *)
+Init == /\ ks = <<>>
+        /\ \/ (mode = "set" /\ w = <<>>)
+           \/ (mode = "key" /\ w \in {<<>>, << <<Nat2I(1), Nat2I(4)>> >>, << <<Nat2I(1), Ta>> >>})
+Base == IF w # <<>> /\ w[1] \in {<<Nat2I(1), Nat2I(4)>>, <<Nat2I(1), Ta>>} THEN 1 ELSE 0
+Push(e) == mode = "key" /\ Len(w) < MaxLen + Base /\ w' = Append(w, e) /\ UNCHANGED <<ks, mode>>
 PushKey(k) == mode = "set" /\ Len(ks) < MaxKeys /\ ks' = Append(ks, k) /\ UNCHANGED <<w, mode>>
 Next == (\E e \in Entries : Push(e)) \/ (\E k \in SetElems : PushKey(k))
 Spec == Init /\ [][Next]_vars
